@@ -298,6 +298,7 @@ def run(ctx):
                 ctx.diverge(what, case, impl, mo)
         k4_witness(ctx, root)
         opaque_mock_probe(ctx, root)
+        force_probe(ctx, root)
     finally:
         tempfile.tempdir = old_tmp
 
@@ -519,6 +520,63 @@ def opaque_mock_probe(ctx, root):
                 ctx.fail('a mocked task did not return the supplied value (the helper called or replaced it)', case,
                          {'via': via, 'got': repr(got)[:80], 'mock_was_called': bool(calls)})
                 calls.clear()
+
+
+def force_probe(ctx, root):
+    """"yields exactly the value the same task yields in a real chain", also after forcing: a TestChain is a chain — forcing the mocked
+    upstream task (`recompute` or not, persisting or in-memory dependants) recomputes the dependants from the mock value, as the real
+    chain recomputes them from the real upstream value; the mock itself is never run or stored"""
+    from taskchain import Task, Config, InMemoryData, Parameter
+    from taskchain.utils.testing import TestChain, MockTask
+    runs = []
+
+    class FpUp(Task):
+        def run(self) -> list:
+            runs.append('up'); return [3, 1, 2]
+
+    class FpMid(Task):
+        class Meta:
+            input_tasks = [FpUp]
+            parameters = [Parameter('rev', default=False)]
+
+        def run(self, fp_up, rev) -> list:
+            runs.append('mid'); return sorted(fp_up, reverse=rev)
+
+    class FpTopMem(Task):
+        class Meta:
+            input_tasks = [FpMid]
+            data_class = InMemoryData
+
+        def run(self, fp_mid) -> dict:
+            runs.append('top'); return {'first': fp_mid[0]}
+    import itertools
+    for k, (target, recompute, delete, rev) in enumerate(itertools.product(['fp_up', 'fp_mid'], [True, False], [False, True], [False, True])):
+        case = {'probe': 'force through a TestChain', 'target': target, 'recompute': recompute, 'delete_data': delete, 'rev': rev}
+        ctx.case(case); ctx.count('force-probe')
+        real = Config(root / f'fpr{k}', name='cfg', data={'tasks': [FpUp, FpMid, FpTopMem], 'rev': rev}).chain()
+        exp0 = real['fp_top_mem'].value
+        real.force(target, recompute=recompute, delete_data=delete)
+        exp1, exp_mid = real['fp_top_mem'].value, real['fp_mid'].value
+        runs.clear()
+        mock_ran = []
+        orig = MockTask.run
+        MockTask.run = lambda self, *a: mock_ran.append(1) or orig(self, *a)
+        try:
+            tc = TestChain([FpMid, FpTopMem], mock_tasks={FpUp: [3, 1, 2]}, parameters={'rev': rev}, base_dir=root / f'fph{k}')
+            got0 = tc['fp_top_mem'].value
+            try:
+                tc.force(target, recompute=recompute, delete_data=delete)
+                got1, got_mid = tc['fp_top_mem'].value, tc['fp_mid'].value
+            except Exception as e:      # noqa
+                ctx.fail('forcing through a TestChain raised where the real chain recomputes', case, f'{type(e).__name__}: {e}'[:200]); continue
+        finally:
+            MockTask.run = orig
+        if (got0, got1, got_mid) != (exp0, exp1, exp_mid):
+            ctx.fail('a TestChain yields other values than the real chain after forcing', case, {'helper': [got0, got1, got_mid], 'real': [exp0, exp1, exp_mid]})
+        if mock_ran or 'up' in runs:
+            ctx.fail('a mocked task was run', case, {'runs': list(runs)})
+        if runs.count('mid') != 2 or runs.count('top') != 2:
+            ctx.fail('forcing through a TestChain did not recompute the dependants exactly once', case, {'runs': list(runs)})
 
 
 def search(ctx, divergences):
